@@ -102,17 +102,21 @@ func (x *wrkExec) do(g string, op WOp) {
 		p := safeCall(func() { x.w.Wait() })
 		// controlled mode: nothing else runs between Wait's unlock and this line, so the worker count read here is
 		// the count Wait returned with (-1 = not observed, in free-running mode)
-		cnt := -1
+		cnt, qlen := -1, -1
 		if x.e.Mode == "c" {
-			cnt, _, _ = bigbuff.VerifWorkersState(x.w)
+			cnt, _, qlen = bigbuff.VerifWorkersState(x.w)
 		}
-		r.Ret(g, "Wait", "r", cls(nil, p), "msg", p, "count", cnt)
+		r.Ret(g, "Wait", "r", cls(nil, p), "msg", p, "count", cnt, "queue", qlen)
 	case "count":
 		ctl.Gate("drv.call")
 		r.Call(g, "Count")
 		n := -1
 		p := safeCall(func() { n = x.w.Count() })
-		r.Ret(g, "Count", "r", cls(nil, p), "n", n)
+		cnt, qlen := -1, -1
+		if x.e.Mode == "c" {
+			cnt, _, qlen = bigbuff.VerifWorkersState(x.w)
+		}
+		r.Ret(g, "Count", "r", cls(nil, p), "n", n, "count", cnt, "queue", qlen)
 	}
 }
 
